@@ -12,7 +12,7 @@ from typing import Dict, List, Optional, Tuple
 from ..interp import Domain, Frame, Interp, VPath, WriteEvent
 from ..model import ClassInfo, FuncInfo, Model
 from ..state import is_user_state_path
-from .common import PRIMITIVE_FUNCS, canon_key, site_of, stmt_of, text_of
+from .common import PRIMITIVE_FUNCS, canon_key, is_loop_key, site_of, stmt_of, text_of
 
 # (helper, callee name) pairs where the callee starts a new constituent transaction
 BOUNDARIES = {
@@ -286,7 +286,7 @@ class AtomDomain(Domain):
         return r
 
     def _add_in(self, facts, cont, key):
-        if not self._tracked(cont):
+        if not self._tracked(cont) or is_loop_key(key):
             return facts
         facts = facts | {("in", cont, key)}
         if self.wallet_inv and cont == UNIPOS and ("in", ASSETS, TOK0) not in facts:
